@@ -18,6 +18,17 @@ CLAIMED = {
         'technique': 'Lean 4 proof (guarded-plan invariant) + exhaustive differential correspondence of file-system outcomes',
         'design': '4/C07',
     },
+    'C13': {
+        'text': 'Proof: C13_incidence(_order1), C13_adjacency_elem/node, C13_nhop_reach (n-hop = walks of length 1..n, by induction '
+                'over Boolean matrix powers, with a refinement lemma down to the materialised arrays the driver executes), '
+                'C13_laplacian_rowsum/offdiag/diag, C13_edge_gradient(_undirected), C13_e2v are kernel-checked for every mesh / '
+                'adjacency; the model is tied to the working tree by an entry-by-entry differential comparison of every matrix '
+                'on seeded uniform/mixed, first/second-order meshes with arbitrary ids and storage order.',
+        'note': 'scipy Boolean sparse algebra reproduced by the model and validated by the correspondence; row order of the '
+                'edge-gradient matrix / column order of e2v (scipy COO order) compared as sets; isolated vertices are outside e2v\'s theorem',
+        'technique': 'Lean 4 proof (spec lemmas + induction on matrix powers + refinement) + differential correspondence of sparse matrices',
+        'design': '4/C13',
+    },
 }
 
 PENDING_REASON = 'no check registered in this revision yet (model/proofs under construction, see DESIGN.md section 4)'
